@@ -42,6 +42,13 @@ CHECKS = {
         technique=MC_TECH + " (all token sequences up to a bound + all generated programs up to k constructs, differential between parsers and against the generator's tree)",
         design="DESIGN.md §4 C06",
     ),
+    "C08": dict(
+        category="exploration",
+        text="Every composition (depth <= 2 over a 176-instance menu of slices/std.slice/reverse/repeat/concatenation/map/filter/removeAt/flatten/sort/set/join/copies, depth 3 over a reduced menu) of view-producing operations over 12 small base arrays and 4 bases around the 1000-element concatenation threshold; each composed array is built once and probed at every index from -2 to len+2 (and 0.5), for length, equality/ordering against a copy in both directions, iteration, folds, std functions and manifestation; the reference interpreter represents every array as a plain vector. Failing compositions are shrunk to a minimal operation chain.",
+        note="Trusted: the reference definitions of slicing and of the composed std functions in harness/src/refi.rs / refstd.rs.",
+        technique=MC_TECH + " (all operation compositions up to a depth bound x boundary index probes, differential against plain-vector reference)",
+        design="DESIGN.md §4 C08",
+    ),
 }
 
 
